@@ -83,8 +83,17 @@ def angle():
     )
 
 
+TINY = 1e-30
+
+
 def small(mag: float):
-    return st.floats(-mag, mag, allow_nan=False, width=64)
+    """Real parameter in [-mag, mag]; non-zero magnitudes below 1e-30 are mapped to 0.
+
+    (Known finding C13/subnormal: scipy's logm inside `euler` raises for symplectic
+    matrices with entries ~1e-99, e.g. QuadraticPhase(1e-99) on the Fock simulators; the
+    trigger is excluded here by construction and replayed from regress/C13.)"""
+    return st.floats(-mag, mag, allow_nan=False, width=64).map(
+        lambda v: 0.0 if abs(v) < TINY else v)
 
 
 def gate_params(name: str, scale: float = 1.0):
